@@ -109,7 +109,7 @@ def parse_family(run, prop, want, rule_text, extra_cases=None, kind=None):
     nbig = 0
     if good:
         with open(cases, "a", encoding="utf-8") as f:
-            for i in range(120 if run.tier == "quick" else 4000):
+            for i in range(120 if run.tier == "quick" else 600):
                 eol = rnd.choice(["\n", "\r\n"])
                 parts = [rnd.choice(good) for _ in range(rnd.randrange(3, 25))]
                 nf = 0 if want == "valid" else (rnd.randrange(1, 4) if want == "invalid" else rnd.randrange(0, 3))
@@ -124,7 +124,7 @@ def parse_family(run, prop, want, rule_text, extra_cases=None, kind=None):
                                    ensure_ascii=False) + "\n")
                 nbig += 1
             # documents of several kilobytes (more than a kilobyte per worker of the parallel parser)
-            for i in range(12 if run.tier == "quick" else 300):
+            for i in range(12 if run.tier == "quick" else 40):
                 parts = [rnd.choice(good) for _ in range(rnd.randrange(70, 130))]
                 if want != "valid" and (want == "invalid" or i % 3 == 0) and bad:
                     parts[rnd.randrange(len(parts))] = rnd.choice(bad)
@@ -484,7 +484,7 @@ def c20(run):
     good = [c["text"] for c in pool if c.get("claim") == "Conforming"]
     big = run.path("cases-big.ndjson")
     with open(big, "w", encoding="utf-8") as f:
-        for i in range(60 if run.tier == "quick" else 1500):
+        for i in range(60 if run.tier == "quick" else 400):
             parts = [rnd.choice(good) for _ in range(rnd.randrange(3, 30) if i % 4 else rnd.randrange(70, 130))]
             text = "".join(p + ("" if p.endswith("\n") else "\n") + "\n" for p in parts)
             f.write(json.dumps({"kind": "view", "text": text, "claim": "random", "line": 0, "workers": [2, 5], "want": WANTS["C20"]}, ensure_ascii=False) + "\n")
